@@ -4,6 +4,7 @@ import Proofs.C01.Walk
 import Proofs.C01.WalkSpec
 import Proofs.C01.Get
 import Proofs.C01.Local
+import Proofs.C01.Facts
 import Proofs.C01.LoserBasic
 import Proofs.C01.LoserValid
 import Proofs.C01.LoserReplay
